@@ -26,6 +26,10 @@ def const_bits(sch, lf):
     txt = t.const
     if t.prim == "char":
         return ord(txt[0]) & mask
+    if t.prim in ("float", "double"):
+        import struct
+        f = float(txt)   # decimal literal, NaN, INF per the XML
+        return struct.unpack("<I", struct.pack("<f", f))[0] if t.prim == "float" else struct.unpack("<Q", struct.pack("<d", f))[0]
     return int(txt) & mask
 
 
@@ -116,7 +120,7 @@ def plan(ctx):
                 out.append((x, std, "checked"))
         out += [("vs_msg_le.xml", "17", "unchecked"), ("vs_msg_be.xml", "20", "unchecked")]
         out += [(x, "17", "checked") for x in ("vs_dims.xml", "vs_data_le.xml", "vs_data_be.xml", "vs_hdr_a.xml", "vs_hdr_b.xml", "vs_hdr_c.xml", "vs_hdr_d.xml", "vs_hdr_e.xml")]
-    return out
+    return hgen.plan_env(out)
 
 
 def random_schemas(ctx, K=6):
